@@ -309,7 +309,13 @@ class ProgGen(object):
                 elif it[0] == 'u':
                     args += self.undelimited_arg(nparams, depth, callees)
                 elif it[0] == 'd':
-                    args += self.arg_content(nparams, depth, callees, plain=True) + it[2]
+                    content = self.arg_content(nparams, depth, callees, plain=True)
+                    if r.random() < 0.2 and not it[2].startswith('\\'):
+                        # the delimiter hidden inside a brace group belongs to the argument (TeX matches at brace level 0)
+                        first = it[2][:1] if not it[2].startswith('\\') else it[2]
+                        content += '{' + self.marker() + first + (' ' if first[-1:].isalpha() else '') + '}' + self.marker()
+                        self.features.add('delimiter-hidden-in-braces')
+                    args += content + it[2]
                     if it[2].startswith('\\') and it[2][-1].isalpha():
                         args += ' '
                 elif it[0] == 'b':
